@@ -113,12 +113,24 @@ def run_case(case, ctx, bm):
     arm.rot_tolerance = case["rot_tol"]
     pt, rt = case["pos_tol"], case["rot_tol"]
     gth = np.array(case["goal_theta"], dtype=float)
-    goal = model.pose(gth)
     reach = model.reach_bound()
+    # The claim under test is about the arm's kinematics as it publishes them (getScrewList + home pose); C05/C13 decide
+    # whether those are the right ones.  This keeps the oracle exact to 1e-14 also for URDF arms, whose loaded screws
+    # differ from the file's semantics by ~4e-9 (below C13's 1e-6, above a 1e-8 IK tolerance).
+    Sg = np.asarray(arm.getScrewList(), dtype=float)
+    Mg = arm.FK(np.zeros(model.n)).gTM()
+    if tol.maxabs(se3.poe_space(Mg, Sg, gth) - model.pose(gth)) > 1e-5 * max(1.0, reach):
+        ctx.bump("oracle", "published_kinematics_differ_from_model")      # C05's business; do not judge IK against a wrong model
+        return
+    B_real = model.B.copy()
+    model.B = np.eye(4)
+    model.S = Sg
+    model.M = Mg
+    goal = model.pose(gth)
     beyond = case["goal_kind"] == "beyond"
     if beyond:
         d = gen.rand_unit(np.random.default_rng(case["rseed"]))
-        goal = model.B @ se3.rp(goal[:3, :3], d * (1.5 * reach + 1.0 + 10 * pt))
+        goal = B_real @ se3.rp(goal[:3, :3], d * (1.5 * reach + 1.0 + 10 * pt))
     t0 = None if case["theta0"] is None else np.array(case["theta0"], dtype=float)
     path = case["path"]
     key_path = path + ("" if t0 is not None else ":current")
@@ -171,12 +183,13 @@ def run_case(case, ctx, bm):
         perr = min(float(np.linalg.norm(Vs[3:])), float(np.linalg.norm(Vb[3:])), dp)
         ctx.clause("success.orientation")
         ctx.err("orientation_err_over_tol", ang / rt)
-        if ang > rt * (1 + 1e-6) + ANG_SLACK:
+        bslack = 1e-6 * model.n if band else 0.0          # joint values inside the exponential's cut-off band
+        if ang > rt * (1 + 1e-6) + ANG_SLACK + bslack:
             ctx.violation("success.orientation", "false_success/orientation/" + key_path,
                           {"angle_err": ang, "rot_tol": rt, "pos_tol": pt, "pos_err": perr}, case)
         ctx.clause("success.position")
         sc = max(1.0, float(np.linalg.norm(goal[:3, 3])))
-        if perr > pt * (1 + 1e-6) + 1e-11 * sc:
+        if perr > pt * (1 + 1e-6) + 1e-11 * sc + bslack * max(1.0, reach) + ANG_SLACK * max(1.0, reach) * (ang > 0 and ang < 2e-8):
             ctx.violation("success.position", "false_success/position/" + key_path,
                           {"pos_err": perr, "pos_tol": pt, "rot_tol": rt, "angle_err": ang}, case)
         if path in ("IK", "constrainedIK"):
@@ -192,7 +205,7 @@ def run_case(case, ctx, bm):
         if beyond:
             ctx.clause("unreachable")
             ctx.violation("unreachable", "unreachable_reported_reached/" + key_path,
-                          {"goal_dist": float(np.linalg.norm((se3.inv(model.B) @ goal)[:3, 3])), "reach_bound": reach}, case)
+                          {"goal_dist": float(np.linalg.norm((se3.inv(B_real) @ goal)[:3, 3])), "reach_bound": reach}, case)
     else:
         if beyond:
             ctx.clause("unreachable")
